@@ -52,7 +52,8 @@ def build(cell):
     import pytorch_wavelets as pw
     with util.default_dtype(torch.float64):
         if cell['order'] == 1:
-            return pw.ScatLayer(biort=cell['biort'], magbias=cell['magbias'], combine_colour=cell['colour'])
+            return pw.ScatLayer(biort=cell['biort'], magbias=cell['magbias'], combine_colour=cell['colour'],
+                                mode=cell.get('mode', 'symmetric'))
         return pw.ScatLayerj2(biort=cell['biort'], qshift=cell['qshift'], magbias=cell['magbias'],
                               combine_colour=cell['colour'])
 
